@@ -169,8 +169,9 @@ def module_ast(mod):
 
 
 def split_qname(qname):
-    """'workload.tasks.Task.start' -> ('workload.tasks', ['Task','start'])"""
-    parts = qname.split(".")
+    """'workload.tasks.Task.start' -> ('workload.tasks', ['Task','start']).  A suffix '#view' names a second
+    contract of the same function: the body is verified against it, callers keep using the plain contract."""
+    parts = qname.split("#")[0].split(".")
     for i in range(len(parts), 0, -1):
         mod = ".".join(parts[:i])
         p = os.path.join(REPO, *parts[:i])
